@@ -265,28 +265,30 @@ func c18RunWorld(ins []c18Input, mode string, world string) int {
 	}
 	l := struct{ Rep *Replica }{rep}
 	probeN := 0
-	probe := func() bool {
+	// probe: "true" = the node serves as before; "false" = it no longer executes blocks; "changed" = it runs, but
+	// answers the same ordinary transactions differently than before the input
+	probe := func() string {
 		probeN++
 		tx := txSend(from, to.Addr, oltAmt("1000"), fmt.Sprintf("probe%d", probeN))
-		if c := l.Rep.CheckTx(tx); c.Code != 0 {
-			return false
-		}
-		res := l.Rep.RunBlock(&BlockIn{Txs: [][]byte{tx}, Absent: map[int]bool{}})
-		if len(res.Txs) != 1 || res.Txs[0].Code != 0 {
-			return false
-		}
-		// "unchanged behaviour": a payment priced below the configured minimal fee is still refused by the
-		// mempool check (what an input leaves in memory — an installed fee option — would answer it differently)
+		cgood := l.Rep.CheckTx(tx)
+		// a payment priced below the configured minimal fee must still be refused by the mempool check
 		probeN++
 		low := signRaw(action.RawTx{Type: action.SEND, Data: decodeSigned(tx).Data, Memo: fmt.Sprintf("probe%d", probeN),
 			Fee: action.Fee{Price: action.Amount{Currency: "OLT", Value: *amt("999999999")}, Gas: GAS}}, from)
-		if c := l.Rep.CheckTx(low); c.Code == 0 {
-			return false
+		clow := l.Rep.CheckTx(low)
+		res := l.Rep.RunBlock(&BlockIn{Txs: [][]byte{tx}, Absent: map[int]bool{}})
+		if h, _ := l.Rep.Info(); h != l.Rep.H || len(res.Txs) != 1 {
+			return "false"
 		}
-		h, _ := l.Rep.Info()
-		return h == l.Rep.H
+		if cgood.Code != 0 || clow.Code == 0 {
+			return "changed"
+		}
+		if res.Txs[0].Code != 0 {
+			return "false"
+		}
+		return "true"
 	}
-	if !probe() {
+	if probe() != "true" {
 		say("PROBE-BROKEN\n")
 		return 3
 	}
@@ -305,8 +307,8 @@ func c18RunWorld(ins []c18Input, mode string, world string) int {
 			}
 		}
 		ok := probe()
-		say("RESULT %d check=%d deliver=%d probe=%v\n", in.ID, cc, dc, ok)
-		if !ok {
+		say("RESULT %d check=%d deliver=%d probe=%s\n", in.ID, cc, dc, ok)
+		if ok != "true" {
 			return 4 // the application no longer serves: the parent restarts a worker for the rest
 		}
 	}
